@@ -204,8 +204,9 @@ func (w *world) abstractWrite(wr write) ([]string, bool) {
 				out = append(out, fmt.Sprintf("WState %d", id))
 			}
 		case kRcpt:
+			// receipts alone are not a head switch (a re-executed canonical block only gets
+			// its state and receipts written)
 			out = append(out, fmt.Sprintf("WRcpt %d", w.bid(e.Hash)))
-			sw = true
 		case kLook:
 			out = append(out, fmt.Sprintf("WLook %d %d", w.txID[e.Hash], w.bid(lookTarget(e.Val))))
 			sw = true
@@ -226,6 +227,36 @@ func (w *world) abstractWrite(wr write) ([]string, bool) {
 		}
 	}
 	return out, sw
+}
+
+func obsDiff(a, b Obs) string {
+	var out []string
+	js := func(x interface{}) string { v, _ := json.Marshal(x); return string(v) }
+	if a.Head != b.Head {
+		out = append(out, "head")
+	}
+	if a.HeadB != b.HeadB {
+		out = append(out, "headB")
+	}
+	if a.HeadH != b.HeadH {
+		out = append(out, "headH")
+	}
+	if js(a.Canon) != js(b.Canon) {
+		out = append(out, "canon")
+	}
+	if js(a.State) != js(b.State) {
+		out = append(out, "state")
+	}
+	if js(a.Hdr) != js(b.Hdr) || js(a.Body) != js(b.Body) || js(a.HNum) != js(b.HNum) {
+		out = append(out, "blocks")
+	}
+	if js(a.Rcpt) != js(b.Rcpt) {
+		out = append(out, "rcpt")
+	}
+	if js(a.Look) != js(b.Look) {
+		out = append(out, "look")
+	}
+	return strings.Join(out, "+")
 }
 
 // ---- the property oracle (independent of the Coq model) ---------------------------
@@ -292,6 +323,18 @@ func (w *world) judge(bc *core.BlockChain, db *logDB) []string {
 		}
 	}
 	return bad
+}
+
+// isAncestor: block a is a strict ancestor of block b
+func (w *world) isAncestor(a, b uint64) bool {
+	for x := w.byID[b]; x != nil && x.NumberU64() > 0; {
+		pid := w.blockID[x.ParentHash()]
+		if pid == a {
+			return true
+		}
+		x = w.byID[pid]
+	}
+	return false
 }
 
 // ---- running ---------------------------------------------------------------------
@@ -619,6 +662,17 @@ func (w *world) run(c Case, res *vf.Result, hits *[]interface{}) ([]stepRes, []d
 			cpanic := false
 			cr.RErr, pm = insert(cbc, bl)
 			cr.RHead = w.blockID[cbc.CurrentBlock().Hash()]
+			if cr.RErr != ePanic {
+				ro := w.abstractDB(cdb.dump(), cbc.CurrentBlock().Hash())
+				if df := obsDiff(ro, sr.Obs); df == "" {
+					res.Count("re-import: database and head equal the crash-free node's")
+				} else {
+					res.Count("re-import: differs from the crash-free node in " + df)
+					if _, ok := res.Extra["diff "+df]; !ok {
+						res.Extra["diff "+df] = map[string]interface{}{"case": c, "step": j, "crash": k + 1, "got": ro, "want": sr.Obs}
+					}
+				}
+			}
 			if cr.RErr == ePanic {
 				cpanic = true
 				addHit(where+"panic when the interrupted batch is offered again", j, k+1, pm)
@@ -629,7 +683,12 @@ func (w *world) run(c Case, res *vf.Result, hits *[]interface{}) ([]stepRes, []d
 				}
 				cr.FHead = w.blockID[cbc.CurrentBlock().Hash()]
 				if cr.FHead != sr.FHead {
-					addHit(where+"wedged: head differs from the node that never crashed", j, k+1, fmt.Sprintf("crashed node %d, crash-free node %d", cr.FHead, sr.FHead))
+					what := "wedged: head differs from the node that never crashed"
+					if w.isAncestor(sr.Obs.Head, prevObs.Head) {
+						// the interrupted import moved the head BACK onto a re-imported canonical ancestor
+						what = "wedged: the import rewound the head onto a re-imported ancestor; head differs from the node that never crashed"
+					}
+					addHit(where+what, j, k+1, fmt.Sprintf("crashed node %d, crash-free node %d", cr.FHead, sr.FHead))
 				} else if bad := w.judge(cbc, cdb); len(bad) > 0 {
 					for _, b := range bad {
 						addHit(where+"after re-import: "+b, j, k+1, "")
@@ -1035,9 +1094,64 @@ func skipCase(r *vf.Rng, res *vf.Result) Case {
 	return c
 }
 
+// a canonical block without its own state, offered again: the trunk block C1 carries
+// the transactions of X1 and X2 together, so X2's state root is on disk although X1
+// and X2 are only stored; X3 imports directly on X2 and reorg makes X1 canonical
+// without executing it; then X1 (or X1,X2 / the whole fork) is offered again
+func restateCase(r *vf.Rng, res *vf.Result) Case {
+	var c Case
+	a, b := 1+r.Intn(3), 1+r.Intn(3)
+	c.Tree = append(c.Tree, BlockSpec{Parent: -1, Txs: []int{a, b}, Salt: 1}) // 0: C1
+	last := 0
+	for i := 0; i < 1+r.Intn(2); i++ { // trunk at least as long as X1,X2
+		c.Tree = append(c.Tree, BlockSpec{Parent: last, Salt: len(c.Tree) + 1})
+		last = len(c.Tree) - 1
+	}
+	trunk := make([]int, len(c.Tree))
+	for i := range trunk {
+		trunk[i] = i
+	}
+	x1 := len(c.Tree)
+	c.Tree = append(c.Tree, BlockSpec{Parent: -1, Txs: []int{a}, Salt: x1 + 1})
+	x2 := x1 + 1
+	c.Tree = append(c.Tree, BlockSpec{Parent: x1, Txs: []int{b}, Salt: x2 + 1})
+	fork := []int{x1, x2}
+	p := x2
+	for len(fork) <= len(trunk)+r.Intn(2) {
+		s := BlockSpec{Parent: p, Salt: len(c.Tree) + 1}
+		if r.Chance(40) {
+			s.Txs = []int{1 + r.Intn(3)}
+		}
+		c.Tree = append(c.Tree, s)
+		p = len(c.Tree) - 1
+		fork = append(fork, p)
+	}
+	c.Batches = [][]int{trunk, {x1, x2}, fork[2:]}
+	switch r.Intn(4) {
+	case 0:
+		c.Batches = append(c.Batches, []int{x1})
+	case 1:
+		c.Batches = append(c.Batches, []int{x1, x2})
+	case 2:
+		c.Batches = append(c.Batches, fork)
+	default:
+		c.Batches = append(c.Batches, []int{x1}, fork)
+	}
+	if r.Chance(40) {
+		c.Batches = append(c.Batches, trunk)
+	}
+	res.Count("tree with forks")
+	res.Count("tree with shared state roots")
+	res.Count("re-offered canonical block without own state case")
+	return c
+}
+
 func randCase(r *vf.Rng, res *vf.Result) Case {
 	if r.Chance(35) {
 		return forkCase(r, res)
+	}
+	if r.Chance(6) {
+		return restateCase(r, res)
 	}
 	if r.Chance(15) {
 		return skipCase(r, res)
